@@ -157,6 +157,119 @@ def rand_rr(rng, ty=None, pool=None):
     r['f'] = vals
     return r
 
+def _field_boundaries(kind):
+    """the boundary values of one field kind (deterministic)"""
+    k = kind[0]
+    if k == 'n':
+        mx = 256 ** int(kind[1]) - 1
+        return sorted(v for v in set([0, 1, 0x7f, 0x80, 0xff, 0x100, mx // 2, mx // 2 + 1, mx - 1, mx]) if 0 <= v <= mx)
+    if k == 'e': return list(ENUMS[kind.split(':')[1]])
+    if k == 'd': return [(), (b'a',), (b'x' * 63,), (b'A', b'example', b'ORG'), tuple([b'b' * 63] * 3 + [b'c' * 61]), (b'a.b', b'\\', b'\x00')]
+    if k == 'x':
+        n = int(kind[1:]); return [bytes(n), b'\xff' * n, bytes(range(1, n + 1)), b'\x80' + bytes(n - 1), bytes(n - 1) + b'\x01']
+    if k == 'h':
+        if kind == 'h:utf8': return [b'', b'a', b'\xc3\xa9', b'\x00', b'u' * 300]
+        return [b'', b'\x00', b'\xff', bytes(16), bytes(range(256)), b'\x00' * 5 + b'\x01']
+    if k == 's':
+        c = kind.split(':')[1] if ':' in kind else None
+        if c == 'digits': return [b'', b'0', b'9' * 255, b'0123456789']
+        if c == 'hex': return [b'', b'0', b'aF09', b'f' * 255]
+        if c == 'gpos': return [b'0', b'-1.5', b'9' * 255, b'.']
+        if c == 'tag': return [b'a', b'issue', b'z9' * 127 + b'a', b'0']
+        return [b'', b'a', b'\xc3\xa9', b'\x00', b'x' * 254, b'x' * 255, b'"q" \\']
+    if k == 'o': return [None, b'', b'0', b'aF', b'f' * 255]
+    if k == 'L': return [[b''], [b'a'], [b'x' * 255], [b'', b''], [b'a', b'', b'\xc3\xa9'], [b'x' * 255] * 3]
+    return []
+
+def _default_value(kind):
+    k = kind[0]
+    if k == 'n': return 5
+    if k == 'e': return ENUMS[kind.split(':')[1]][-1]
+    if k == 'd': return (b'n', b'example')
+    if k == 'x': return bytes(range(1, int(kind[1:]) + 1))
+    if k == 'h': return b'v'
+    if k == 's':
+        c = kind.split(':')[1] if ':' in kind else None
+        return {'digits': b'1', 'hex': b'a', 'gpos': b'1', 'tag': b'issue'}.get(c, b's')
+    if k == 'o': return b'a'
+    if k == 'L': return [b't']
+    return None
+
+def boundary_sweep():
+    """Deterministic each-choice / pairwise sweep: every regular record type with every field at every boundary value (the
+    other fields at a default), every PAIR of fields at their extreme values, every class and the TTL boundaries; OPT,
+    APL, SVCB/HTTPS with each component at its boundaries. A defect that needs `this type AND that field value` (or two
+    field values together) is hit without relying on random draws."""
+    out = []
+    owner = (b'o', b'example')
+    for ty in sorted(TABLE):
+        tname, in_only, flds = TABLE[ty]
+        base = [_default_value(kind) for _, kind in flds]
+        def mk(vals, ttl=60, cls=1, name=owner):
+            return {'ty': ty, 'name': name, 'ttl': ttl, 'cls': cls, 'f': list(vals)}
+        out.append(mk(base))
+        for i, (_, kind) in enumerate(flds):
+            for v in _field_boundaries(kind):
+                vals = list(base); vals[i] = v
+                out.append(mk(vals))
+        for i in range(len(flds)):
+            for j in range(i + 1, len(flds)):
+                bi = _field_boundaries(flds[i][1]); bj = _field_boundaries(flds[j][1])
+                for vi in (bi[0], bi[-1]):
+                    for vj in (bj[0], bj[-1]):
+                        vals = list(base); vals[i] = vi; vals[j] = vj
+                        out.append(mk(vals))
+        for ttl in (0, 1, 0x7fffffff, 0x80000000, 0xffffffff):
+            out.append(mk(base, ttl=ttl))
+        if not in_only:
+            for cls in CLASSES: out.append(mk(base, cls=cls))
+        for name in ((), (b'x' * 63,), tuple([b'b' * 63] * 3 + [b'c' * 61])):
+            out.append(mk(base, name=name))
+    # OPT
+    for payload in (0, 1, 511, 512, 1232, 4096, 65535):
+        for ext in (0, 1, 255):
+            for ver in (0, 1, 255):
+                for do in (0, 1):
+                    if (payload in (0, 1232, 65535)) or (ext, ver, do) in ((0, 0, 0), (255, 255, 1)):
+                        out.append({'ty': OPT, 'payload': payload, 'ext': ext, 'ver': ver, 'do': do, 'opts': []})
+    opts = [('pad', 0), ('pad', 1), ('pad', 468), ('cookie', b'\1' * 8, None), ('cookie', b'\1' * 8, b'\2' * 8), ('cookie', b'\1' * 8, b'\2' * 32),
+            ('ecs', 1, 0, 0, bytes(4)), ('ecs', 1, 24, 0, b'\x0a\x01\x02\x00'), ('ecs', 1, 32, 32, b'\x0a\x01\x02\x03'), ('ecs', 1, 8, 24, b'\x0a\x01\x02\x00'),
+            ('ecs', 2, 0, 0, bytes(16)), ('ecs', 2, 56, 0, b'\x20\x01\x0d\xb8\x00\x01\x02' + bytes(9)), ('ecs', 2, 128, 128, bytes(range(1, 17))), ('ecs', 1, 1, 0, b'\x80\0\0\0')]
+    for o in opts:
+        for ver in (0, 1):
+            out.append({'ty': OPT, 'payload': 1232, 'ext': 0, 'ver': ver, 'do': 1, 'opts': [o]})
+    for o1 in opts[::2]:
+        for o2 in opts[1::2]:
+            out.append({'ty': OPT, 'payload': 512, 'ext': 1, 'ver': 0, 'do': 0, 'opts': [o1, o2]})
+    # APL
+    items = [{'fam': 1, 'pfx': 0, 'neg': 0, 'addr': bytes(4)}, {'fam': 1, 'pfx': 0, 'neg': 1, 'addr': bytes(4)}, {'fam': 1, 'pfx': 32, 'neg': 0, 'addr': b'\x0a\x01\x02\x03'},
+             {'fam': 1, 'pfx': 8, 'neg': 1, 'addr': b'\x0a\0\0\0'}, {'fam': 1, 'pfx': 24, 'neg': 0, 'addr': b'\x0a\0\x02\0'}, {'fam': 1, 'pfx': 1, 'neg': 0, 'addr': b'\x80\0\0\0'},
+             {'fam': 1, 'pfx': 32, 'neg': 1, 'addr': b'\0\0\0\x01'}, {'fam': 2, 'pfx': 0, 'neg': 1, 'addr': bytes(16)}, {'fam': 2, 'pfx': 128, 'neg': 0, 'addr': bytes(range(1, 17))},
+             {'fam': 2, 'pfx': 64, 'neg': 0, 'addr': b'\x20\x01\x0d\xb8' + bytes(12)}, {'fam': 2, 'pfx': 127, 'neg': 1, 'addr': b'\xff' * 15 + b'\xfe'}, {'fam': 2, 'pfx': 128, 'neg': 0, 'addr': bytes(15) + b'\x01'}]
+    out.append({'ty': APL, 'name': owner, 'ttl': 60, 'cls': 1, 'items': []})
+    for it in items: out.append({'ty': APL, 'name': owner, 'ttl': 60, 'cls': 1, 'items': [it]})
+    for a in items[::2]:
+        for b in items[1::2]:
+            out.append({'ty': APL, 'name': owner, 'ttl': 60, 'cls': 1, 'items': [a, b]})
+    out.append({'ty': APL, 'name': owner, 'ttl': 60, 'cls': 1, 'items': items})
+    # SVCB / HTTPS
+    params = [('mandatory', [1]), ('mandatory', [1, 3, 4, 6]), ('alpn', [b'h2']), ('alpn', [b'h2', b'h3', b'x' * 255]), ('nodefaultalpn',), ('port', 0), ('port', 65535),
+              ('ipv4hint', [b'\1\2\3\4']), ('ipv4hint', [bytes(4), b'\xff' * 4, b'\1\2\3\4']), ('ech', b''), ('ech', b'\0'), ('ech', bytes(range(200))),
+              ('ipv6hint', [bytes(range(16))]), ('ipv6hint', [bytes(16), b'\xff' * 16]), ('key', 7, b''), ('key', 7, b'z'), ('key', 65534, bytes(300)), ('key65535',)]
+    for ty in (SVCB, HTTPS):
+        for prio in (0, 1, 2, 65535):
+            for target in ((), (b't', b'example'), owner):
+                out.append({'ty': ty, 'name': owner, 'ttl': 60, 'cls': 1, 'prio': prio, 'target': target, 'params': []})
+        for pm in params:
+            for prio in (1, 65535):
+                out.append({'ty': ty, 'name': owner, 'ttl': 60, 'cls': 1, 'prio': prio, 'target': (), 'params': [pm]})
+        for i, p1 in enumerate(params):
+            for p2 in params[i + 1:]:
+                if param_key(p1) != param_key(p2):
+                    out.append({'ty': ty, 'name': owner, 'ttl': 60, 'cls': 1, 'prio': 1, 'target': (b't',), 'params': sorted([p1, p2], key=param_key)})
+        out.append({'ty': ty, 'name': owner, 'ttl': 60, 'cls': 1, 'prio': 1, 'target': (), 'params': dedup_params(params)})
+    return out
+
 def rand_flags(rng, rcodes=RCODES_4BIT):
     return {'qr': rng.randint(0, 1), 'opcode': rng.choice(OPCODES), 'aa': rng.randint(0, 1), 'tc': rng.randint(0, 1),
             'rd': rng.randint(0, 1), 'ra': rng.randint(0, 1), 'ad': rng.randint(0, 1), 'cd': rng.randint(0, 1),
